@@ -1,5 +1,6 @@
 import Tickit.Proof.WinFocus
 import Tickit.Proof.WinFocusReq
+import Tickit.Proof.WinFocusHist
 import Tickit.Gen.WinFocusSrc
 /-
   C15 — After a flush the terminal cursor reflects the focused window, or is hidden.
@@ -403,123 +404,102 @@ theorem hide_requests_counterexample : ¬ hide_requests_full Fixes.none := by
   revert this
   decide
 
-/-! ### the property over histories (full statement; OPEN) -/
+/-! ### the property over histories
 
-/-- The operations the property quantifies over.  A geometry change comes with the exposes of the old and the new area
-    in the parent (C01's proviso, adopted by the property's design). -/
-inductive Op where
-  | newWin (parent : Nat) (rect : Rect) (rootParent hidden lowest steal : Bool)
-  | focus (win : Nat)
-  | curpos (win : Nat) (line col : Int)
-  | curvis (win : Nat) (v : Int)
-  | curshape (win : Nat) (v : Int)
-  | curblink (win : Nat) (v : Int)
-  | notify (win : Nat) (v : Int)
-  | showW (win : Nat)
-  | hideW (win : Nat)
-  | closeW (win : Nat)
-  | restack (ch : Change) (win : Nat)
-  | move (win : Nat) (rect : Rect)
-  | exposeW (win : Nat) (rect : Option Rect)
-  | flush
-
-/-- Tree and terminal cursor. -/
-structure HSt where
-  tree : Tree
-  term : TermCursor := {}
-
-def stepOp (fx : Fixes) (s : HSt) : Op → Res HSt
-  | .newWin p r a b c d => do
-    let x ← newWindow s.tree (treeFuel s.tree) p r a b c d
-    pure { s with tree := x.1 }
-  | .focus w => do let x ← takeFocus fx s.tree w; pure { s with tree := x.1 }
-  | .curpos w l c => do let t ← setCursorPosition s.tree w l c; pure { s with tree := t }
-  | .curvis w v => do let t ← setCursorVisible s.tree w v; pure { s with tree := t }
-  | .curshape w v => do let t ← setCursorShape s.tree w v; pure { s with tree := t }
-  | .curblink w v => do let t ← setCursorBlink s.tree w v; pure { s with tree := t }
-  | .notify w v => do let t ← setFocusChildNotify s.tree w v; pure { s with tree := t }
-  | .showW w => do let t ← showWin fx s.tree w; pure { s with tree := t }
-  | .hideW w => do let t ← hideWin fx s.tree w; pure { s with tree := t }
-  | .closeW w => do let t ← closeWin fx s.tree w; pure { s with tree := t }
-  | .restack ch w => do let t ← requestHierarchyChange s.tree (treeFuel s.tree) ch w; pure { s with tree := t }
-  | .move w r => do
-    let t ← WinFlush.setGeometryExposed s.tree (treeFuel s.tree) w r
-    pure { s with tree := t }
-  | .exposeW w r => do let t ← expose s.tree (treeFuel s.tree) w r; pure { s with tree := t }
-  | .flush => do
-    let o ← WinFocus.flush fx s.tree
-    pure { tree := o.tree, term := s.term.applyAll o.calls }
-
-def runOps (fx : Fixes) (s : HSt) : List Op → Res HSt
-  | [] => pure s
-  | op :: rest => do
-    let s' ← stepOp fx s op
-    runOps fx s' rest
+    `Op`, `HSt`, `stepOp`, `runOps` (Proof/WinFocusHist.lean): the operations the property quantifies over — window
+    creation, take-focus, the cursor setters, the notification switch, show, hide, close, restacking requests, a geometry
+    change with the exposes of the old and the new area (C01's proviso), expose, flush — run on a tree and a terminal
+    cursor. -/
 
 /-- C15 over histories: from a fresh root window on an `l × c` terminal, after any history that ends in a flush and
     that the library survives, the terminal cursor is what `cursorSpec` says of the tree.
-    OPEN for every `fx`: it is false of `Fixes.none` (the four counterexamples above are such histories); for the
-    repaired source it follows from `flush_cursor`, the preservation of `wfB`, and `restore_requested` for every
-    operation, of which the cursor setters and the visible-path `take_focus` are proved. -/
+    False of `Fixes.none` (the four counterexamples above are such histories).  For the repaired source it is PROVED for
+    plain histories (`history_cursor` below); what is still open are histories with restacking requests (the effect of
+    `_do_hierarchy_change` RAISE/LOWER inside the flush on the composition has no step lemma yet) and moves of the root
+    window (outside C01's proviso: its geometry follows the terminal). -/
 def history_full (fx : Fixes) : Prop :=
   ∀ (l c : Int) (ops : List Op) (s : HSt), 0 < l → 0 < c →
     runOps fx { tree := newRoot l c } (ops ++ [.flush]) = .ok s → s.term.matches (cursorSpec s.tree) = true
 
-/-- The store invariant is preserved by every operation (full statement; OPEN for `newWin`, `closeW` and for a flush
-    whose queue was filled by something else than the four restacking requests). -/
+/-- **After every flush the cursor equals `cursorSpec`**, over whole histories, for the source as repaired in /repo:
+    every history of window creation, take-focus, cursor position / visibility / shape / blink changes, notification
+    switches, show, hide, close, geometry changes of any window but the root (with the proviso's exposes), expose and
+    flush, in any order and of any length, from a fresh root window on any terminal, that ends in a flush.
+    (`Op.plain`: no restacking request, the root window is not moved.)  The composition of `restore_spec`,
+    `flush_cursor`, `restore_requested` for every operation (C01's damage specification underneath), the flag discipline,
+    and the preservation of `Good15`. -/
+theorem history_cursor (fx : Fixes) (hfx1 : fx.hiddenRoot = true) (hfx2 : fx.chainRestore = true)
+    (l c : Int) (hl : 0 < l) (hc : 0 < c) (ops : List Op) (hplain : ∀ op ∈ ops, op.plain) (s : HSt)
+    (h : runOps fx { tree := newRoot l c } (ops ++ [.flush]) = .ok s) :
+    s.term.matches (cursorSpec s.tree) = true :=
+  WinFocus.history_cursor hfx1 hfx2 l c hl hc ops hplain s h
+
+/-- … and at every flush in the middle of such a history too: the invariant `HInv` (store and flags in order, nothing
+    queued, cursor right or a restore pending) holds after every operation, and after a flush the cursor is right. -/
+theorem history_every_flush (fx : Fixes) (hfx1 : fx.hiddenRoot = true) (hfx2 : fx.chainRestore = true)
+    (l c : Int) (hl : 0 < l) (hc : 0 < c) (ops : List Op) (hplain : ∀ op ∈ ops, op.plain) (s s' : HSt)
+    (h : runOps fx { tree := newRoot l c } ops = .ok s) (hf : stepOp fx s .flush = .ok s') :
+    s'.term.matches (cursorSpec s'.tree) = true :=
+  (flush_step hfx1 (runOps_inv hfx1 hfx2 ops _ s hplain (hinv_newRoot l c hl hc) h) hf).2
+
+/-- Every operation preserves the invariants (full statement: `Good15`, which contains the store invariant `wfB`). -/
 def wf_preserved_full (fx : Fixes) : Prop :=
-  ∀ (s s' : HSt) (op : Op), wfB s.tree = true → stepOp fx s op = .ok s' → wfB s'.tree = true
+  ∀ (s s' : HSt) (op : Op), Good15 s.tree → stepOp fx s op = .ok s' → Good15 s'.tree
 
-/-- The operations for which preservation of the invariant is proved. -/
-def Op.covered : Op → Bool
-  | .newWin .. | .closeW _ | .flush => false
-  | _ => true
-
-/-- `chain_visible` and the structural invariants survive take-focus, the cursor setters, the notification switch,
-    show, hide, restacking requests, geometry changes with their exposes, and expose — for every tree. -/
-theorem wf_preserved (fx : Fixes) (s s' : HSt) (op : Op) (hc : op.covered = true) (hwf : wfB s.tree = true)
-    (hs : stepOp fx s op = .ok s') : wfB s'.tree = true := by
+/-- `Good15` — `wfB` with `chain_visible`, the window engine's structural invariants, the flag discipline — survives
+    window creation, take-focus, the cursor setters, the notification switch, show, hide, close, restacking requests,
+    geometry changes of any window but the root with their exposes, and expose, for every tree and every state of
+    the source.  (The flush: `flush_preserves_wf` for `wfB` with any queue of restacking requests; `HInv` in
+    `history_every_flush` for `Good15` with an empty queue.) -/
+theorem wf_preserved (fx : Fixes) (s s' : HSt) (op : Op) (hop : op ≠ .flush) (hmv : ∀ w r, op = .move w r → w ≠ 0)
+    (hg : Good15 s.tree) (hs : stepOp fx s op = .ok s') : Good15 s'.tree := by
   cases op with
-  | newWin => cases hc
-  | closeW => cases hc
-  | flush => cases hc
+  | flush => exact absurd rfl hop
+  | newWin p r a b c d =>
+    simp only [stepOp, bind_ok, pure_ok] at hs
+    obtain ⟨x, hx, hs⟩ := hs; subst hs
+    obtain ⟨t', id⟩ := x
+    exact (newWindow_step hg hx).1
   | focus w =>
     simp only [stepOp, bind_ok, pure_ok] at hs
-    obtain ⟨x, hx, hs⟩ := hs; subst hs; exact takeFocus_wf hwf hx
+    obtain ⟨x, hx, hs⟩ := hs; subst hs; exact takeFocus_good hg hx
   | curpos w l c =>
     simp only [stepOp, bind_ok, pure_ok] at hs
     obtain ⟨x, hx, hs⟩ := hs; subst hs
-    exact cursor_setter_wf (fun cu => { cu with line := l, col := c }) hwf hx
+    exact cursor_setter_good (fun cu => { cu with line := l, col := c }) hg hx
   | curvis w v =>
     simp only [stepOp, bind_ok, pure_ok] at hs
     obtain ⟨x, hx, hs⟩ := hs; subst hs
-    exact cursor_setter_wf (fun cu => { cu with visible := bit1 v }) hwf hx
+    exact cursor_setter_good (fun cu => { cu with visible := bit1 v }) hg hx
   | curshape w v =>
     simp only [stepOp, bind_ok, pure_ok] at hs
     obtain ⟨x, hx, hs⟩ := hs; subst hs
-    exact cursor_setter_wf (fun cu => { cu with shape := v }) hwf hx
+    exact cursor_setter_good (fun cu => { cu with shape := v }) hg hx
   | curblink w v =>
     simp only [stepOp, bind_ok, pure_ok] at hs
     obtain ⟨x, hx, hs⟩ := hs; subst hs
-    exact cursor_setter_wf (fun cu => { cu with blink := if v ≠ 0 then 1 else 0 }) hwf hx
+    exact cursor_setter_good (fun cu => { cu with blink := if v ≠ 0 then 1 else 0 }) hg hx
   | notify w v =>
     simp only [stepOp, bind_ok, pure_ok] at hs
-    obtain ⟨x, hx, hs⟩ := hs; subst hs; exact notify_wf hwf hx
+    obtain ⟨x, hx, hs⟩ := hs; subst hs; exact notify_good hg hx
   | showW w =>
     simp only [stepOp, bind_ok, pure_ok] at hs
-    obtain ⟨x, hx, hs⟩ := hs; subst hs; exact showWin_wf hwf hx
+    obtain ⟨x, hx, hs⟩ := hs; subst hs; exact show_good hg hx
   | hideW w =>
     simp only [stepOp, bind_ok, pure_ok] at hs
-    obtain ⟨x, hx, hs⟩ := hs; subst hs; exact hideWin_wf hwf hx
+    obtain ⟨x, hx, hs⟩ := hs; subst hs; exact hide_good hg hx
+  | closeW w =>
+    simp only [stepOp, bind_ok, pure_ok] at hs
+    obtain ⟨x, hx, hs⟩ := hs; subst hs; exact close_good hg hx
   | restack ch w =>
     simp only [stepOp, bind_ok, pure_ok] at hs
-    obtain ⟨x, hx, hs⟩ := hs; subst hs; exact requestHierarchyChange_wf hwf hx
+    obtain ⟨x, hx, hs⟩ := hs; subst hs; exact restack_request_good hg hx
   | move w r =>
     simp only [stepOp, bind_ok, pure_ok] at hs
-    obtain ⟨x, hx, hs⟩ := hs; subst hs; exact setGeometryExposed_wf hwf hx
+    obtain ⟨x, hx, hs⟩ := hs; subst hs; exact move_good hg (hmv w r rfl) hx
   | exposeW w r =>
     simp only [stepOp, bind_ok, pure_ok] at hs
-    obtain ⟨x, hx, hs⟩ := hs; subst hs; exact expose_wf hwf hx
+    obtain ⟨x, hx, hs⟩ := hs; subst hs; exact expose_good hg hx
 
 /-- A flush whose queue holds restacking requests only (all the public API can put there) preserves the invariant. -/
 theorem flush_preserves_wf (fx : Fixes) (t : Tree) (out : FlushOut) (hwf : wfB t = true)
